@@ -62,10 +62,11 @@ SCENARIOS = {
         dims=2, racks={'r1': ['s1', 's2']}, pods={},
         sprofiles=[_sp([2, 2]), _sp([1, 1])],
         server_init={'s1': 1, 's2': 2},
-        allocs={'x': _al(), 'y': _al(rank=90)},
+        allocs={'x': _al(), 'y': _al(rank=90), 'c': _al(maxutil=1, reserved=(1, 1))},
         aprofiles=[_ap([1, 1], group='g1'), _ap([1, 1], group='g1', prio=5, alloc='y'),
                    _ap([2, 2], group='g1', prio=3), _ap([1, 1], group='g2', once=True),
-                   _ap([1, 1], group='g1', traits=['t1'])],
+                   _ap([1, 1], group='g1', traits=['t1']),
+                   _ap([1, 1], group='g1', alloc='c', prio=2), _ap([1, 1], group='g1', alloc='c', prio=8)],
         groups={'g1': 2, 'g2': 1}, apps=['a1', 'a2', 'a3', 'a4', 'a5']),
     # down / frozen / retention against the clock
     'failure': dict(
